@@ -261,4 +261,181 @@ theorem exists_next_run {cfg : Cfg} (hs : cfg.code.Sound) (hg : 1 ≤ cfg.gmp) (
       · exact h1 x hx
     · exact ⟨[], s, by simp, rfl, hp, hr⟩
 
+/-! ## draining: once the source has ended, consuming to the end terminates -/
+
+def wRankD : WPc → Nat
+  | .inF _ => 5
+  | .sendCh _ _ => 4
+  | .idle => 1
+  | .done => 0
+
+def wSumD : List WPc → Nat
+  | [] => 0
+  | x :: xs => wRankD x + wSumD xs
+
+def cRankD : CPc → Nat
+  | .idle => 1
+  | .next => 0
+
+/-- work left after the source has ended: per worker its remaining steps, per buffered result one
+`Next` call and its yield, and the consumer's next call -/
+def delta (s : St) : Nat := wSumD s.ws + 2 * s.heap.length + cRankD s.cons
+
+theorem wRankD_eqs : (∀ k, wRankD (.inF k) = 5) ∧ (∀ k v, wRankD (.sendCh k v) = 4) ∧ wRankD .idle = 1 ∧
+    wRankD .done = 0 := by simp [wRankD]
+theorem cRankD_eqs : cRankD .next = 0 ∧ cRankD .idle = 1 := by simp [cRankD]
+
+theorem wSumD_set {ws : List WPc} {w : Nat} {a b : WPc} (h : ws[w]? = some b) :
+    wSumD (ws.set w a) + wRankD b = wSumD ws + wRankD a := by
+  induction ws generalizing w with
+  | nil => simp at h
+  | cons x xs ih =>
+    cases w with
+    | zero => simp at h; subst h; simp [List.set, wSumD]; omega
+    | succ w =>
+      simp at h
+      have := ih h
+      simp [List.set, wSumD]; omega
+
+theorem wSumD_set' {ws : List WPc} {w : Nat} {b : WPc} (h : ws[w]? = some b) :
+    wRankD b ≤ wSumD ws ∧ ∀ a, wSumD (ws.set w a) = wSumD ws - wRankD b + wRankD a := by
+  refine ⟨?_, fun a => ?_⟩
+  · have := wSumD_set (a := WPc.done) h; simp only [wRankD_eqs] at this; omega
+  · have := wSumD_set (a := a) h
+    have := wSumD_set (a := WPc.done) h; simp only [wRankD_eqs] at this; omega
+
+/-- the dispatcher, once done, stays done -/
+theorem done_step {cfg : Cfg} {s s' : St} {l : Label} (hd : s.disp = .done) (h : Iter.step cfg s l = some s') :
+    s'.disp = .done := by
+  cases l
+  all_goals
+    iter_cases h => (simp_all)
+
+theorem done_run {cfg : Cfg} {ls : List Label} : ∀ {s s' : St}, s.disp = .done → Iter.run cfg s ls = some s' →
+    s'.disp = .done := by
+  induction ls with
+  | nil => intro s s' hd h; simp [Iter.run] at h; subst h; exact hd
+  | cons l ls ih =>
+    intro s s' hd h
+    simp only [Iter.run] at h
+    split at h
+    · next s1 hs1 => exact ih (done_step hd hs1) h
+    · simp at h
+
+/-- results only grow -/
+theorem end_mono {cfg : Cfg} {s s' : St} {l : Label} (h : Iter.step cfg s l = some s')
+    (he : NextRes.end ∈ s.results) : NextRes.end ∈ s'.results := by
+  cases l
+  all_goals
+    iter_cases h => (simp_all)
+
+theorem end_mono_run {cfg : Cfg} {ls : List Label} : ∀ {s s' : St}, Iter.run cfg s ls = some s' →
+    NextRes.end ∈ s.results → NextRes.end ∈ s'.results := by
+  induction ls with
+  | nil => intro s s' h he; simp [Iter.run] at h; subst h; exact he
+  | cons l ls ih =>
+    intro s s' h he
+    simp only [Iter.run] at h
+    split at h
+    · next s1 hs1 => exact ih h (end_mono hs1 he)
+    · simp at h
+
+theorem length_eraseP_key {h : List (Nat × Nat)} {k v : Nat} (hm : (k, v) ∈ h) :
+    (h.eraseP (fun kv => kv.1 == k)).length = h.length - 1 :=
+  List.length_eraseP_of_mem hm (by simp)
+
+/-- **After the source has ended, every step that does not report the end strictly decreases `delta`** —
+the consumer's new `Next` calls included. -/
+theorem delta_decreases {cfg : Cfg} {s s' : St} {l : Label} (hd : s.disp = .done)
+    (h : Iter.step cfg s l = some s') (he : NextRes.end ∉ s'.results) : delta s' < delta s := by
+  cases l with
+  | dPull => iter_cases h => (simp_all)
+  | srcRet r => iter_cases h => (simp_all)
+  | dAcquire => iter_cases h => (simp_all)
+  | dSend w => iter_cases h => (simp_all)
+  | fRet w v =>
+    iter_cases h =>
+      (have hw := ‹_[_]? = some _›
+       have ⟨h0, h1⟩ := wSumD_set' hw
+       simp only [wRankD_eqs] at h0
+       simp only [delta, h1, wRankD_eqs, cRankD_eqs, *]
+       omega)
+  | wHandOff w =>
+    iter_cases h =>
+      (have hw := ‹_[_]? = some _›
+       have ⟨h0, h1⟩ := wSumD_set' hw
+       simp only [wRankD_eqs] at h0
+       simp only [delta, h1, wRankD_eqs, cRankD_eqs, List.length_append, List.length_cons, List.length_nil, *]
+       omega)
+  | wExitIdle w =>
+    iter_cases h =>
+      (have hw := ‹_[_]? = some _›
+       have ⟨h0, h1⟩ := wSumD_set' hw
+       simp only [wRankD_eqs] at h0
+       simp only [delta, h1, wRankD_eqs, cRankD_eqs, *]
+       omega)
+  | nextCall => iter_cases h => (simp only [delta, cRankD_eqs, *]; omega)
+  | cYield =>
+    iter_cases h =>
+      first
+        | (have hx := ‹s.disp = DPc.parked _›; rw [hd] at hx; cases hx)
+        | (have hf := ‹List.find? _ s.heap = some _›
+           have hmem := List.mem_of_find?_eq_some hf
+           have hlen := length_eraseP_key hmem
+           have hpos : 0 < s.heap.length := List.length_pos_of_mem hmem
+           simp only [delta, cRankD_eqs, *]
+           omega)
+  | cRecvClosed => iter_cases h => (simp_all)
+
+theorem run_delta {cfg : Cfg} {ls : List Label} : ∀ {s s' : St}, s.disp = .done → Iter.run cfg s ls = some s' →
+    NextRes.end ∉ s'.results → ls.length + delta s' ≤ delta s := by
+  induction ls with
+  | nil => intro s s' _ h _; simp [Iter.run] at h; subst h; simp
+  | cons l ls ih =>
+    intro s s' hd h he
+    simp only [Iter.run] at h
+    split at h
+    · next s1 hs1 =>
+      have he1 : NextRes.end ∉ s1.results := fun hc => he (end_mono_run h hc)
+      have h1 := delta_decreases hd hs1 he1
+      have h2 := ih (done_step hd hs1) h he
+      simp only [List.length_cons]; omega
+    · simp at h
+
+/-- **Consuming to the end terminates.** From a reachable state in which the source has ended there is a
+run — the consumer calling `Next` whenever it is idle, internal steps, returns of `f` — at the end of
+which `Next` has reported the end. -/
+theorem exists_drain_run {cfg : Cfg} (hs : cfg.code.Sound) (hg : 1 ≤ cfg.gmp) : ∀ (n : Nat) (s : St),
+    Reach cfg s → s.disp = .done → delta s ≤ n →
+    ∃ ls s', Iter.run cfg s ls = some s' ∧ NextRes.end ∈ s'.results ∧ ls.length ≤ n + 1 := by
+  intro n
+  induction n with
+  | zero =>
+    intro s h hd hn
+    by_cases he : NextRes.end ∈ s.results
+    · exact ⟨[], s, rfl, he, by simp⟩
+    · cases hc : s.cons with
+      | idle => simp [delta, hc, cRankD] at hn
+      | next =>
+        obtain ⟨l, s1, _, hst⟩ := exists_service_step hs hg h hc
+        by_cases he1 : NextRes.end ∈ s1.results
+        · exact ⟨[l], s1, by simp [Iter.run, hst], he1, by simp⟩
+        · have := delta_decreases hd hst he1; omega
+  | succ n ih =>
+    intro s h hd hn
+    by_cases he : NextRes.end ∈ s.results
+    · exact ⟨[], s, rfl, he, by simp⟩
+    · have key : ∃ l s1, Iter.step cfg s l = some s1 := by
+        cases hc : s.cons with
+        | idle => exact ⟨.nextCall, { s with cons := .next }, by simp [Iter.step, hc]⟩
+        | next =>
+          obtain ⟨l, s1, _, hst⟩ := exists_service_step hs hg h hc
+          exact ⟨l, s1, hst⟩
+      obtain ⟨l, s1, hst⟩ := key
+      by_cases he1 : NextRes.end ∈ s1.results
+      · exact ⟨[l], s1, by simp [Iter.run, hst], he1, by simp⟩
+      · have hdec := delta_decreases hd hst he1
+        obtain ⟨ls, s', h1, h2, h3⟩ := ih s1 (Reach.step h hst) (done_step hd hst) (by omega)
+        exact ⟨l :: ls, s', by simp [Iter.run, hst, h1], h2, by simp only [List.length_cons]; omega⟩
+
 end Juniper.Proofs.ParMap.IM
